@@ -6,9 +6,11 @@ import RV.Base.Proto
     iso  c c c c c c … | c c c …     -> true | false     (`isoDecide g h`)
          each `c` is a term code `2*id + (1 if blank node else 0)`; three codes = one triple
     cert k v k v … | g-codes | h-codes -> true | false    (`isoCheck m g h`; k,v = blank-node ids)
-    skolem T T T …                   -> true | false
-         each `T` is `i:cp.cp.…` (IRI), `b:cp.cp.…` (blank-node label) or `l:n` (opaque literal n);
-         answer = `isoDecide g (deSkolemize (skolemize g))` after interning the string terms
+    skolem A B T T T …               -> true | false
+         A, B = code points of `authority` and `basepath` given to `Graph.skolemize`; each `T` is `i:cp.cp.…` (IRI),
+         `b:cp.cp.…` (blank-node label) or `l:n:cp.cp.…` (literal: opaque datatype/language tag n, lexical form);
+         answer = `isoDecide g (deSkolemizeSt (skolemizeAt A B g))` (stateful model with the `skolems` dict,
+         starting from an empty dict) after interning the string terms
     refine c c c …                    -> the blank-node partition after the initial colour refinement of the
                                          model (`refinePartition`), canonical: classes sorted, `|`-separated
                                          (diagnostic tie of RV/C14/Canon.lean to `_TripleCanonicalizer._refine`)
@@ -52,7 +54,10 @@ def sterm? (w : String) : Option STerm :=
   match w.splitOn ":" with
   | ["i", cs] => (chars? cs).map STerm.iri
   | ["b", cs] => (chars? cs).map STerm.bnode
-  | ["l", n] => n.toNat?.map STerm.lit
+  | ["l", n, cs] => do
+    let k ← n.toNat?
+    let lex ← chars? cs
+    pure (STerm.lit lex k)
   | _ => none
 
 def striples? : List String → Option SGraph
@@ -79,7 +84,7 @@ def intern (v : List STerm) (g : SGraph) : Graph :=
 
 def vocab (g : SGraph) : List STerm := g.flatMap (fun t => [t.1, t.2.1, t.2.2])
 
-def freshLabel (u : Str) : Str := "~fresh~".toList ++ u
+def mintLabel (k : Nat) : Str := "~fresh~".toList ++ (toString k).toList
 
 def showB (b : Bool) : String := if b then "true" else "false"
 
@@ -98,13 +103,13 @@ def step (s : Unit) : List String → Unit × String
       | some m, some g, some h => (s, showB (isoCheck m g h))
       | _, _, _ => (s, "bad-op")
     | _ => (s, "bad-op")
-  | "skolem" :: rest =>
-    match striples? rest with
-    | some g =>
-      let g' := deSkolemize simpleUrl freshLabel (skolemize simpleUrl g)
+  | "skolem" :: auth :: base :: rest =>
+    match chars? auth, chars? base, striples? rest with
+    | some a, some b, some g =>
+      let g' := (deSkolemizeSt simpleUrl mintLabel ⟨[], 0⟩ (skolemizeAt simpleUrl a b g)).1
       let v := vocab g ++ vocab g'
       (s, showB (isoDecide (intern v g) (intern v g')))
-    | none => (s, "bad-op")
+    | _, _, _ => (s, "bad-op")
   | "refine" :: rest =>
     match triples? rest with
     | some g =>
